@@ -267,6 +267,10 @@ def count_nodes(doc):
 # model -> text
 # ----------------------------------------------------------------------
 def scalar_text(node, flow=False):
+    if node.get("raw") is not None:
+        # emitted verbatim (timestamps and other plain scalars whose type the
+        # loader infers from their spelling)
+        return ("&%s " % node["a"] if node.get("a") else "") + node["raw"]
     value = node["v"]
     quote = node.get("q") or ""
     if value is None:
